@@ -276,6 +276,11 @@ FIXED_HISTORIES = [
     "sg singular 6 ; wf 0 ; sf 1 ; mm 0 ; sf 0",
     # two spaces on different grids: mass matrices are memoised per space object, with the global order of their first use
     "cs 0 ; cs 1 ; mm 0 ; sg regular 6 ; mm 1 ; co sparse 1 0 g n ; sf 0 ; mm 0 ; cs 0 ; mm 2",
+    # dense potential operators: the order is resolved at construction (global and explicit object), later changes of the
+    # globals / of the object between construction and evaluation and between two evaluations change nothing
+    # (seed C18-b moved the rule lookup into the evaluator; the random histories of a quick run missed it)
+    "cs 0 ; cp dense 0 0 0 g ; sg regular 2 ; ep 0 ; sg regular 6 ; ep 0 ; np 6 4 5 400 4 ; cp dense 0 1 0 e0 ; ep 1 ; "
+    "se 0 regular 2 ; ep 1 ; cp dense 0 1 0 e0 ; ep 2",
 ]
 
 
